@@ -17,8 +17,8 @@ import (
 func axiomModelScript(w *World) (string, []string) {
 	r := w.Reg
 	elem := SInt
-	sl := w.sliceSort(elem)                 // Sl!Int
-	base := unsym(sl)                       // Sl:Int
+	sl := w.sliceSort(elem) // Sl!Int
+	base := unsym(sl)       // Sl:Int
 	f := func(n string) string { return sym(n + ":" + base) }
 	var sb strings.Builder
 	sb.WriteString("(set-option :produce-models false)\n")
